@@ -1,6 +1,8 @@
 package main
 
 import (
+	"bytes"
+	"io"
 	"context"
 	"crypto/sha256"
 	"encoding/base64"
@@ -612,6 +614,13 @@ func runC19Capture(t *verifsim.Tape, cfg engine.Config, o *engine.Outcome) *engi
 		for k := range chunks {
 			chunks[k] = []byte(nstr(t, letdig, 0, 40))
 		}
+		how := make([]int, nChunks)
+		for k := range how {
+			how[k] = t.Pick("write-how", 3, 2, 1, 1)
+			if how[k] != 0 && len(chunks[k]) == 0 {
+				chunks[k] = []byte("x") // (copying or printing nothing calls nobody: only Write(empty) is a write of nothing)
+			}
+		}
 		twice := explicit && t.Draw("second-writeheader", 6) == 0
 		var cap *httpmw.ResponseCapture
 		net := &simnet.Net{Tape: t, Cfg: simnet.Config{Chunking: true, WriterError: 350}}
@@ -620,8 +629,21 @@ func runC19Capture(t *verifsim.Tape, cfg engine.Config, o *engine.Outcome) *engi
 			if explicit {
 				cap.WriteHeader(status)
 			}
-			for _, c := range chunks {
-				if _, err := cap.Write(c); err != nil {
+			for k, c := range chunks {
+				// the ways a handler writes a body: Write, io.Copy from a plain reader (which uses the writer's
+				// ReadFrom when it has one), io.WriteString, fmt.Fprint
+				var err error
+				switch how[k] {
+				case 1:
+					_, err = io.Copy(cap, struct{ io.Reader }{bytes.NewReader(c)})
+				case 2:
+					_, err = io.WriteString(cap, string(c))
+				case 3:
+					_, err = fmt.Fprint(cap, string(c))
+				default:
+					_, err = cap.Write(c)
+				}
+				if err != nil {
 					return
 				}
 			}
